@@ -354,7 +354,7 @@ func rootFieldName(f string) string {
 		return "Version"
 	case f == "uint32 J+44":
 		return "length"
-	case strings.HasPrefix(f, "int64 "):
+	case strings.HasPrefix(f, "int64 "), strings.HasPrefix(f, "uint64 "):
 		return "offset"
 	}
 	return f
